@@ -131,6 +131,7 @@ def run_once(cfg: dict, chooser, line_points=False, use_cache=True):
         "max_ahead": drv.x_max_ahead,
         "threads": len(s.threads),
         "pruned": s.pruned,
+        "horizon": s.horizon,
         "divergence": s.divergence,
     }
     return out, s
@@ -141,6 +142,10 @@ def judge(cfg: dict, out: dict) -> list[str]:
     bad = []
     T, n, v = cfg["T"], cfg["n"], cfg["variant"]
     k, p = cfg.get("k"), cfg.get("p")
+    if out.get("horizon"):
+        return [f"the execution did not come to rest within the horizon of "
+                f"scheduling points (drawn {out['drawn']} inputs for "
+                f"{len(out['got'])} results): unbounded feeding or livelock"]
     if out["deadlock"]:
         if out["phase"] in (3, 6) and out["exc"] is None:
             bad.append(f"workers never terminate after the consumer left the "
@@ -238,7 +243,8 @@ def explore_config(cfg: dict) -> dict:
     ex = Explorer(run,
                   bound=bound,
                   cache=use_cache,
-                  max_executions=cfg.get("max_exec"))
+                  max_executions=cfg.get("max_exec"),
+                  max_seconds=cfg.get("max_seconds", 240))
     try:
         ex.explore(on_result)
     except Divergence as d:
